@@ -31,6 +31,7 @@
 #include "galois/substrate/PerThreadStorage.h"
 #include "galois/substrate/Termination.h"
 #include "galois/substrate/ThreadPool.h"
+#include "galois/substrate/Verif.h"
 #include "galois/Timer.h"
 
 namespace galois::runtime {
@@ -249,6 +250,7 @@ private:
       assert(steal_beg != steal_end);
       assert(std::distance(steal_beg, steal_end) == steal_size);
 
+      GALOIS_VERIF_POINT(DOALL_STOLEN);
       poor.assignWork(steal_beg, steal_end, steal_size);
     }
 
@@ -423,6 +425,7 @@ public:
       assert(!ctx.hasWork());
 
       stealTime.start();
+      GALOIS_VERIF_POINT(DOALL_BEFORE_TERM);
       bool stole = trySteal(ctx);
       stealTime.stop();
 
